@@ -50,6 +50,21 @@ impl<T> List<T> {
     }
 }
 
+impl<T> Drop for List<T> {
+    /// Releases the nodes iteratively. Without this, dropping the last handle of a long
+    /// list recurses once per node (each node drops its `next`) and overflows the stack.
+    fn drop(&mut self) {
+        let mut link = self.head.take();
+        while let Some(node) = link {
+            // Only the holder of the last reference gets the node; stop at a shared node.
+            link = match Arc::into_inner(node) {
+                Some(mut node) => node.next.take(),
+                None => None,
+            };
+        }
+    }
+}
+
 impl<T> Clone for List<T> {
     fn clone(&self) -> Self {
         Self {
